@@ -363,7 +363,23 @@ impl<'c, 'd> Parser<'c, 'd> {
                             self.inst_index,
                         ))
                     }
-                    _ => operands.append(&mut self.parse_operand(loperand.kind)?),
+                    _ => {}
+                }
+                // Optional and variadic operands of the embedded opcode
+                // extend as far as this instruction's word count allows.
+                match loperand.quantifier {
+                    GOpCount::One => operands.append(&mut self.parse_operand(loperand.kind)?),
+                    GOpCount::ZeroOrOne => {
+                        if self.decoder.limit_reached() {
+                            break;
+                        }
+                        operands.append(&mut self.parse_operand(loperand.kind)?)
+                    }
+                    GOpCount::ZeroOrMore => {
+                        while !self.decoder.limit_reached() {
+                            operands.append(&mut self.parse_operand(loperand.kind)?)
+                        }
+                    }
                 }
             }
             Ok(operands)
